@@ -123,6 +123,13 @@ pub fn run_c05(a: &Args) {
             let idx = RepIndex::new(&fr);
             let evs: Vec<REv> = partition(&mut rng, &fr.stream(), 0).into_iter().map(REv::Data).chain([REv::Eof]).collect();
             run.session("C05", &fr, &idx, true, &evs, &mut st, &mut out, true);
+            // ... and followed by the beginning of another frame when the stream ends (the peer went away in mid-frame): the complete frame is
+            // delivered, then 'disconnected' - on both connections alike
+            for cut in [1usize, 2, 3, f.len() - 1] { if cut >= f.len() { continue; }
+                let mut evs: Vec<REv> = vec![REv::Data(fr.stream())]; evs.push(REv::Data(f[..cut].to_vec())); evs.push(REv::Eof);
+                run.session("C05", &fr, &idx, true, &evs, &mut st, &mut out, cut == 2);
+                st.bump("streams ending inside a frame");
+            }
         }
         // 3. random sessions, incl. far beyond the 6120-byte buffer, with transient errors
         let nrand = if a.thorough() { 1500 } else { 120 };
@@ -439,6 +446,28 @@ pub fn run_c06(a: &Args) {
     }
     st.rule = "Framed::write on the real blocking and tokio connections over a scripted transport that accepts k bytes per call / reports not-ready (Interrupted for blocking, Pending for tokio) / fails: all acceptance patterns for short frames, every kind one byte per call, random sequences of 1..6 packets; non-trivial = a call accepting < 4 bytes occurs".into();
     st.sample("A C 2 | p a0 p a0 a1  -> transport receives 01030000".into());
+    // the peer's end of stream concerns the READ half only (a TCP half-close): after read() has reported it, the caller's writes still reach the
+    // transport whole - and no read() ever closes the write half
+    for compressed in [true, false] { for imp in ["B", "A"] { for extra_reads in [1usize, 2] {
+        st.evaluations += 1; st.bump("writes after the peer's end of stream");
+        let ping = raw_frame(compressed, 3, 5, &[3]);
+        let t = Transport::new(vec![REv::Data(ping.clone()), REv::Eof, REv::Eof, REv::Eof], vec![]);
+        let p = Packet::Tiny(insim::insim::Tiny { reqi: insim::identifiers::RequestId(9), subt: insim::insim::TinyType::Ping });
+        let want = encode(compressed, &p).unwrap_or_default();
+        let id = format!("eofwrite {imp} {} {extra_reads}", mode_tag(compressed));
+        let res: Option<(Vec<String>, bool)> = if imp == "B" {
+            let mut f = BFramed::new(Box::new(t.clone()), Codec::new(mode_of(compressed)));
+            guard(|| { let mut r = vec![]; for _ in 0..1 + extra_reads { r.push(match f.read() { Ok(_) => "P".to_string(), Err(e) => err_token(&e).0 }); } let _ = t.take_written(); let ok = f.write(p.clone()).is_ok(); (r, ok) })
+        } else {
+            let mut f = AFramed::new(Box::new(t.clone()), Codec::new(mode_of(compressed)));
+            guard(|| rt.block_on(async { let mut r = vec![]; for _ in 0..1 + extra_reads { r.push(match f.read().await { Ok(_) => "P".to_string(), Err(e) => err_token(&e).0 }); } let _ = t.take_written(); let ok = f.write(p.clone()).await.is_ok(); (r, ok) }))
+        };
+        let shut = t.0.lock().unwrap().shut; let w = t.take_written();
+        match res {
+            None => st.fail(format!("[C06 {imp}] panic around the end of the stream"), id),
+            Some((r, ok)) => if shut || !ok || w != want { st.fail(format!("[C06 {}] after the reads {:?} (the peer closed its sending side) a write {} and the transport received {} instead of the frame {}{}", if imp == "B" { "blocking" } else { "tokio" }, r, if ok { "succeeded" } else { "FAILED" }, hex(&w), hex(&want), if shut { "; the connection shut the write half down itself" } else { "" }), id); },
+        }
+    } } }
     // UDP as the transport: a frame handed to write reaches the socket complete and contiguous, i.e. as ONE datagram, at every frame size
     { let iort = crate::c08::io_runtime();
       for compressed in [true, false] { for imp in ["B", "A"] { let (n, w) = crate::c08::all_sizes_written(imp, &iort, compressed); st.evaluations += n as u64; if let Some(w) = w { st.fail(format!("[C06 udp {}] {w}", if imp == "B" { "blocking" } else { "tokio" }), format!("udpsizes {imp} {}", mode_tag(compressed))); } st.add("udp writes of every frame size", n as u64); } } }
